@@ -1,17 +1,24 @@
-use vf_world::srv::*;
-use vf_world::*;
-use kanidmd_lib::prelude::*;
+use vf_world::g_storage::val::*;
 fn main() {
-    let rt = runtime();
-    rt.block_on(async {
-        let qs = new_qs().await;
-        let mut w = qs.write(ct(1)).await.unwrap();
-        w.internal_create(vec![pop::person(pop::person_uuid(0), "p0"), pop::group(pop::group_uuid(0), "g0", &[pop::person_uuid(0)])]).unwrap();
-        w.commit().unwrap();
-        let mut r = qs.read().await.unwrap();
-        let d = dump::dump_all(&mut r).unwrap();
-        println!("{} entries", d.len());
-        println!("{}", serde_json::to_string_pretty(&d[&pop::person_uuid(0)]).unwrap());
-        println!("{}", serde_json::to_string_pretty(&d[&pop::group_uuid(0)]).unwrap());
-    });
+    for i in 0..IMPORTS.len() {
+        let g = GPw::Import { idx: i as u8, lower: false };
+        let t = std::time::Instant::now();
+        let pw = g.build().unwrap();
+        let tb = t.elapsed();
+        let t = std::time::Instant::now();
+        let r = pw.verify(&g.clear());
+        let tv = t.elapsed();
+        let t = std::time::Instant::now();
+        let r2 = pw.verify("nope");
+        println!("{} build {:?} verify {:?} {:?} wrong {:?} {:?}", g.label(), tb, tv, r, t.elapsed(), r2);
+    }
+    for algo in 0..2 {
+        let g = GPw::Generated { clear: "abc".into(), algo };
+        let t = std::time::Instant::now();
+        let pw = g.build().unwrap();
+        let tb = t.elapsed();
+        let t = std::time::Instant::now();
+        let r = pw.verify("abc");
+        println!("{} build {:?} verify {:?} {:?}", g.label(), tb, t.elapsed(), r);
+    }
 }
